@@ -109,8 +109,32 @@ func registerEat(e *Engine) {
 		outs := intrNdString(e, &CallCtx{St: c.St, Args: []Value{ConstString(name), c.Args[1]}, Site: c.Site})
 		s := outs[0].Ret.(VString)
 		c.St.Assume(urlGrammar(s))
+		present := e.ndScalar(&CallCtx{St: c.St, Args: []Value{ConstString(name + ".present")}, Site: c.Site}, "bool", 0, false).(*Term)
+		zero := e.ndScalar(&CallCtx{St: c.St, Args: []Value{ConstString(name + ".zero")}, Site: c.Site}, "bool", 0, false).(*Term)
 		pv := e.profileWithURL(s)
+		iv := pv.Fields[0].(VIface)
+		iv.Nil = zero
+		pv = VStruct{Fields: []Value{iv}}
 		id := c.St.Alloc(&Object{Kind: KCell, Typ: lookupNamed(e.pkgs, "github.com/veraison/eat", "Profile"), Val: pv, Site: "nd:" + name})
+		kind := Ite(Not(present), I64(0), Ite(zero, I64(1), I64(2)))
+		// the returned string is "" unless kind == 2
+		es := VString{Len: Ite(Eq(kind, I64(2)), s.Len, I64(0)), B: s.B}
+		return one(c.St, VTuple{Elems: []Value{VPtr{Nil: Not(present), Obj: id}, kind, es}})
+	}
+	nonceT := lookupNamed(e.pkgs, "github.com/veraison/eat", "Nonce")
+	e.intr[modPath+".ndNonceEmpty"] = func(e *Engine, c *CallCtx) []Outcome {
+		elem := nonceT.Underlying().(*types.Slice).Elem()
+		sl := e.newSlice(c.St, elem, nil, 0, "nd:nonce")
+		id := c.St.Alloc(&Object{Kind: KCell, Typ: nonceT, Val: sl, Site: "nd:nonce"})
+		return one(c.St, VPtr{Nil: False, Obj: id})
+	}
+	e.intr[modPath+".ndNonceAppend"] = func(e *Engine, c *CallCtx) []Outcome {
+		elem := nonceT.Underlying().(*types.Slice).Elem()
+		old := e.load(c.St, c.Args[0].(VPtr)).(VSlice)
+		es := append([]Value(nil), e.sliceElems(c.St, old)...)
+		es = append(es, VStruct{Fields: []Value{c.Args[1]}})
+		sl := e.newSlice(c.St, elem, es, len(es), "nd:nonce")
+		id := c.St.Alloc(&Object{Kind: KCell, Typ: nonceT, Val: sl, Site: "nd:nonce"})
 		return one(c.St, VPtr{Nil: False, Obj: id})
 	}
 }
